@@ -396,11 +396,8 @@ func c07Run(sc *C07Sc, evs []world.Event, budget int, env *Env) (*c07Final, *Vio
 
 func c07Compare(sc *C07Sc, base, got *c07Final, nEvents int, what string) *Violation {
 	a, b := base.st, got.st
-	if a.IR.Lo&0x80 != b.IR.Lo&0x80 {
-		// (the refresh counter counts in its low seven bits; bit 7 is only ever changed by LD R,A, which
-		// neither the programs nor the handlers execute)
-		return viol("twin-final-state", "%s: bit 7 of R differs from the undisturbed run (%02x!=%02x): counting refresh cycles never touches it", what, a.IR.Lo, b.IR.Lo)
-	}
+	// (R is not compared at all, bit 7 included: how an implementation represents the refresh register in
+	// States is its own business - seventh informed review; what LD A,R would read is C14's subject)
 	if d := world.DiffStates(a, b, true); d != "" {
 		return viol("twin-final-state", "%s: final registers differ from the undisturbed run (undisturbed!=interrupted):%s", what, d)
 	}
